@@ -236,7 +236,7 @@ for mode in ('fwd', 'rev'):
                 mods = ['d_outputs._data', 'd_inputs._data']
             contract(DJ + '::ExplicitDictionaryJacobian._apply', ['C02', 'C11'], params, requires=JREQ, ensures=ens,
                      modifies=mods + [SUB1 + '._in_view', SUB1 + '._res_view', SUB1 + '._out_view', SUB2 + '._in_view', SUB2 + '._res_view', SUB2 + '._out_view'],
-                     inline={'asarray'},
+                     inline={'asarray'}, defs={'canary_timeout_ms': 30000},
                      assumed={'with system._unscaled_context': (Assumed(), Assumed()),
                               'self._get_subjacs': Assumed(returns_expr='self._subjacs', note='returns self._subjacs (built in setup)')},
                      name=DJ + '::ExplicitDictionaryJacobian._apply[%s,inputs=%s,outputs=%s]' % (mode, '+'.join(inp) or 'none', has_out),
